@@ -47,6 +47,9 @@ func (f *frame) execInstr(ins ssa.Instruction, in string, st *State) {
 			vc.obligeIn(f, "nil", "store:"+vc.anchorAt(f.fn, x.Pos(), "deref"), in, Not(Eq(addr.T, "Null")), x.Pos(), "store through possibly nil pointer")
 		}
 		t := x.Addr.Type().Underlying().(*types.Pointer).Elem()
+		if len(f.declFrames) > 0 {
+			f.checkWrite(x.Block(), addr.T, t, in, x.Pos(), "store:"+vc.anchorAt(f.fn, x.Pos(), "deref"))
+		}
 		vc.storeVal(st, addr.T, t, f.val(x.Val).T)
 	case *ssa.UnOp:
 		f.execUnOp(x, in, st)
